@@ -1,6 +1,127 @@
-(* C07 -- placeholder while the proofs are being written *)
-From PyRTL Require Import Front.Cond Front.CondSpec.
-From Coq Require Import ZArith List. Import ListNotations. Open Scope Z_scope.
-Example C07_example_accepts :
-  spec_accepts [With 0 [Assign (TWire 0) 1]; Otherwise [Assign (TWire 0) 2]] = true.
-Proof. vm_compute. reflexivity. Qed.
+(* C07 -- conditional_assignment gives each target its unique active branch's value.
+   Only statements + `exact`; the model is Front/Cond.v (elaborator state machine of
+   pyrtl/conditional.py), the specification is Front/CondSpec.v (direct tree interpreter),
+   the proofs live in Front/CondProofs.v.
+   All statements quantify over ALL condition trees (any depth, any sibling chains, any
+   otherwise placement, any sharing of predicates, any number of targets), all declared
+   defaults and all environments (predicate values, data values, register values). *)
+From Coq Require Import ZArith List Bool.
+From PyRTL Require Import Front.Cond Front.CondSpec Front.CondProofs.
+Import ListNotations.
+Open Scope Z_scope.
+
+(* 1. For an accepted program, the (select, rhs) list _predicate_map holds for a target is,
+      in assignment order, the list of its assignments and every select wire evaluates to
+      "this branch is active" of the tree interpreter (predicate holds, all enclosing branches
+      active, no earlier sibling since the last otherwise taken). *)
+Theorem C07_select_is_activity : forall prog s,
+  elab_forest prog init_st = Some s ->
+  forall rho l,
+    map (fun sp => (snd sp, beval rho (fst sp))) (am_get (pmap s) l) = flags_for rho prog l.
+Proof. exact select_is_activity. Qed.
+Print Assumptions C07_select_is_activity.
+
+(* 2. Soundness of the syntactic conflict check: in a program that passes it, under every
+      valuation at most one assigning branch of each target is active. *)
+Theorem C07_accepted_implies_exclusive : forall prog d res,
+  elab prog d = Some res ->
+  forall rho l, (length (active_for rho prog l) <= 1)%nat.
+Proof.
+  intros prog d res H. apply accepted_exclusive.
+  destruct (spec_accepts prog) eqn:E; [reflexivity|].
+  apply (elab_none_iff prog d) in E. congruence.
+Qed.
+Print Assumptions C07_accepted_implies_exclusive.
+
+(* 3. The elaborator raises PyrtlError (None) exactly when the program is not accepted by the
+      syntactic criterion read off the tree: some assignment is under no predicate, or two
+      assignments to one target have path conditions without a complementary literal. *)
+Theorem C07_rejects_iff_not_syntactically_exclusive : forall prog d,
+  elab prog d = None <-> spec_accepts prog = false.
+Proof. exact elab_none_iff. Qed.
+Print Assumptions C07_rejects_iff_not_syntactically_exclusive.
+
+Theorem C07_rejects_non_exclusive : forall prog d l la lb a b c,
+  slits prog = a ++ (l, la) :: b ++ (l, lb) :: c ->
+  syn_excl la lb = false ->
+  elab prog d = None.
+Proof. exact rejects_non_exclusive. Qed.
+Print Assumptions C07_rejects_non_exclusive.
+
+(* 3'. The criterion is semantically grounded: exclusive path conditions never hold together,
+       and (for independent predicates) two satisfiable path conditions that are not
+       syntactically exclusive DO hold together under some valuation. *)
+Theorem C07_syntactic_exclusion_sound : forall rho a b,
+  syn_excl a b = true -> holds rho a = true -> holds rho b = true -> False.
+Proof. exact syn_excl_sound. Qed.
+Print Assumptions C07_syntactic_exclusion_sound.
+
+Theorem C07_syntactic_exclusion_exact : forall a b,
+  syn_excl a b = false -> syn_excl a a = false -> syn_excl b b = false ->
+  exists rho, holds rho a = true /\ holds rho b = true.
+Proof. exact syn_excl_complete. Qed.
+Print Assumptions C07_syntactic_exclusion_exact.
+
+(* 4. Value theorem, wires and registers: the expression _finalize builds for an assigned
+      target evaluates, in every environment, to the rhs of the unique active branch, else to
+      the default (declared default; else 0 for a wire, the register itself for a register). *)
+Theorem C07_value : forall prog d res,
+  elab prog d = Some res ->
+  forall t, In (LW t) (map fst (slits prog)) ->
+  exists e, res_get res (LW t) = Some (FVal e) /\
+            forall E, Some (veval E e) = spec_value E d prog t.
+Proof. exact value_wire. Qed.
+Print Assumptions C07_value.
+
+(* 5. Value theorem, memories: the combined write port has enable 0 when no assigning branch is
+      active (memory not written), else exactly the active branch's address, data and enable. *)
+Theorem C07_memory : forall prog d res,
+  elab prog d = Some res ->
+  forall m, In (LM m) (map fst (slits prog)) ->
+  exists en ad da, res_get res (LM m) = Some (FMem en ad da) /\
+    forall E,
+      match spec_mem E prog m with
+      | Some None => veval E en = 0
+      | Some (Some (a, dd, e)) => veval E en = e /\ veval E ad = a /\ veval E da = dd
+      | None => False
+      end.
+Proof. exact value_mem. Qed.
+Print Assumptions C07_memory.
+
+(* ---- non-vacuity: the docstring example of conditional.py extended with a memory, a nested
+   otherwise and a chain restarted after an otherwise *)
+Definition ex_prog : list ctree :=
+  [ With 0 [ Assign (TReg 1) 10; With 1 [ Assign (TReg 2) 11 ] ];
+    With 2 [ Assign (TReg 1) 12; Assign (TReg 2) 12; MemAssign 0 20 21 22 ];
+    Otherwise [ Assign (TReg 2) 13;
+                With 1 [ MemAssign 0 23 24 25 ];
+                Otherwise [ Assign (TWire 3) 14 ] ];
+    With 3 [ Assign (TWire 3) 15; With 0 [ With 2 [ Otherwise [ MemAssign 0 26 27 28 ] ] ] ] ].
+
+Example C07_example_accepted :
+  spec_accepts ex_prog = true /\
+  (exists res, elab ex_prog [(TReg 2, 30)] = Some res /\
+               map fst res = [LW (TReg 1); LW (TReg 2); LM 0; LW (TWire 3)]).
+Proof. split; [vm_compute; reflexivity|eexists; split; vm_compute; reflexivity]. Qed.
+
+(* a = c = 0, b = d = 1: r1 keeps its value (7), r2 takes the otherwise branch (leaf 13),
+   the memory is written through the nested `with b`, w3 takes `with d` *)
+Definition ex_env : env :=
+  mkEnv (fun p => (p =? 1) || (p =? 3)) (fun r => 100 + r) (fun _ => 7).
+
+Example C07_example_values :
+  spec_value ex_env [(TReg 2, 30)] ex_prog (TReg 1) = Some 7 /\
+  spec_value ex_env [(TReg 2, 30)] ex_prog (TReg 2) = Some 113 /\
+  spec_value ex_env [(TReg 2, 30)] ex_prog (TWire 3) = Some 115 /\
+  spec_mem ex_env ex_prog 0 = Some (Some (123, 124, 125)) /\
+  spec_value (mkEnv (fun p => p =? 0) (fun r => 100 + r) (fun _ => 7)) [(TReg 2, 30)] ex_prog (TReg 2)
+    = Some 130.
+Proof. vm_compute. repeat split; reflexivity. Qed.
+
+(* the same program with the last memory write not under `otherwise` is rejected, and the two
+   offending path conditions are simultaneously satisfiable *)
+Example C07_example_rejected :
+  elab [ With 0 [ Assign (TWire 0) 1 ]; Otherwise []; With 1 [ Assign (TWire 0) 2 ] ] [] = None /\
+  elab [ Otherwise [ Assign (TWire 0) 1 ] ] [] = None /\
+  elab [ Assign (TWire 0) 1 ] [] = None.
+Proof. vm_compute. repeat split; reflexivity. Qed.
